@@ -174,6 +174,26 @@ def c06_live(rep, rnd, thorough):
                     rep.violation({"formula": "BackendsIdentical", "kind": kind, "live": True},
                                   "streams differ between backends for a %s body of %d" % (kind, size), None)
                 del bodies[key]
+        # whatever the handler declares about a str body, the wire carries its UTF-8 encoding
+        metas = ["text/plain; charset=iso-8859-1", "text/plain; charset=utf-16", 'text/gemini; lang=de; charset="latin-1"',
+                 "text/plain; charset=klingon", "text/gemini; charset=ascii", "text/plain;charset=UTF-8"]
+
+        def handler_meta(req):
+            i, size = req.path.strip("/").split("-")[1:3]
+            return GeminiResponse(status=20, meta=metas[int(i)], body=bodies["m" + size])
+        for srv in servers.values():
+            srv.handler = (lambda orig: (lambda req: handler_meta(req) if req.path.startswith("/meta-") else orig(req)))(srv.handler)
+        for size in (1, 40, 20000):
+            bodies["m%d" % size] = body_for(size, "str", rnd)[::-1] if size > 1 else "\u20ac"
+            for i, meta in enumerate(metas):
+                want = ("20 %s\r\n" % meta).encode("utf-8") + bodies["m%d" % size].encode("utf-8")
+                for bk, srv in servers.items():
+                    data, end = fetch(srv.port, b"gemini://localhost/meta-%d-%d\r\n" % (i, size), "fast", rnd)
+                    n += 1
+                    if data != want or end != "eof":
+                        rep.violation({"formula": "ByteExact", "backend": bk, "kind": "str", "live": True, "declared": meta},
+                                      "live %s backend, str body of %d characters declared as %r: received %r..., expected the UTF-8 encoding %r..." % (
+                                          bk, size, meta, data[:60], want[:60]), None)
         n += started_server_idle_reader(rep, cert)
         rep.add("live_fetches", n)
         rep.add("traces_validated_against_impl", n)
